@@ -285,48 +285,87 @@ def lowrank_target(c):
 
 
 def oracle_exact(tn, c):
-    """a rank-rho tensor given through an element oracle is reproduced once the working ranks have reached rho"""
+    """a rank-rho tensor given through an element oracle is reproduced once the working ranks have reached rho; also when
+    the run is interrupted (objective returns None) anywhere after the first left-to-right half sweep"""
     def fail(what, **kw):
         return dict(what='C05: ' + what, input=dict(lowrank=c), **kw)
     A, Y0 = lowrank_target(c)
     nA = np.linalg.norm(A)
     if not nA > 0:
         return None
-    f = lambda I: A[tuple(np.asarray(I).T)]
-    info = {}
-    cache = {} if c['cache'] else None
+    d = len(c['ns'])
     rngv = np.random.default_rng(c['seed'] + 7)
     I_vld = y_vld = None
     if c['vld']:
         I_vld = np.array([[int(rngv.integers(0, n)) for n in c['ns']] for _ in range(9)])
-        y_vld = f(I_vld)
+        y_vld = A[tuple(I_vld.T)]
         if not np.linalg.norm(y_vld) > 0:
             I_vld = y_vld = None
-    try:
+
+    def run(kNone):
+        ncall = [0]
+
+        def f(I):
+            k = ncall[0]
+            ncall[0] += 1
+            if kNone is not None and k == kNone:
+                return None
+            return A[tuple(np.asarray(I).T)]
+        info = {}
+        cache = {} if c['cache'] else None
         with warnings.catch_warnings():
             warnings.simplefilter('ignore')
             with np.errstate(all='ignore'):
                 Y = tn.cross(f, [G.copy() for G in Y0], nswp=c['nswp'], dr_min=c['dr_min'], dr_max=c['dr_max'],
                              info=info, cache=cache, I_vld=I_vld, y_vld=y_vld, m_cache_scale=10 ** 9)
+        return Y, info, ncall[0]
+
+    def check(Y, info, tag):
+        if not (isinstance(Y, list) and len(Y) == d and all(np.ndim(G) == 3 for G in Y)):
+            return fail(tag + 'result is not a list of d 3-D cores')
+        if [int(np.shape(G)[1]) for G in Y] != list(c['ns']) or np.shape(Y[0])[0] != 1 or np.shape(Y[-1])[2] != 1 or \
+                any(np.shape(Y[k])[2] != np.shape(Y[k + 1])[0] for k in range(d - 1)):
+            return fail(tag + 'result does not have the shape of the target', got=[list(np.shape(G)) for G in Y])
+        rk = [1] + [int(np.shape(G)[2]) for G in Y]
+        if c['kind'] == 'fixed' and rk != list(c['rho']):
+            return fail(tag + 'fixed-rank run changed the ranks', got=rk, expected=c['rho'])
+        if not all(rk[k] >= c['rho'][k] for k in range(d + 1)):
+            return None                # premise of the property (working ranks reached rho) not met
+        err = np.linalg.norm(full(Y) - A) / nA
+        if not err <= 1e-6:
+            return fail(tag + 'rank-rho target not reproduced', got=float(err), expected='<= 1e-6', ranks=rk,
+                        stop=info.get('stop'), kNone=c.get('kNone'))
+        if I_vld is not None and not (0 <= info['e_vld'] <= 1e-6):
+            return fail(tag + 'info[e_vld] not small although the target is reproduced', got=float(info['e_vld']))
+        return None
+
+    try:
+        Y, info, ncall = run(None)
     except Exception as e:  # noqa
         return fail('cross raised ' + repr(e)[:300])
-    d = len(c['ns'])
-    if not (isinstance(Y, list) and len(Y) == d and all(np.ndim(G) == 3 for G in Y)):
-        return fail('result is not a list of d 3-D cores')
-    if [int(np.shape(G)[1]) for G in Y] != list(c['ns']) or np.shape(Y[0])[0] != 1 or np.shape(Y[-1])[2] != 1 or \
-            any(np.shape(Y[k])[2] != np.shape(Y[k + 1])[0] for k in range(d - 1)):
-        return fail('result does not have the shape of the target', got=[list(np.shape(G)) for G in Y])
-    rk = [1] + [int(np.shape(G)[2]) for G in Y]
-    reached = all(rk[k] >= c['rho'][k] for k in range(d + 1))
-    if c['kind'] == 'fixed' and rk != list(c['rho']):
-        return fail('fixed-rank run changed the ranks', got=rk, expected=c['rho'])
-    if not reached:
-        return None                # premise of the property (working ranks reached rho) not met
-    err = np.linalg.norm(full(Y) - A) / nA
-    if not err <= 1e-6:
-        return fail('rank-rho target not reproduced', got=float(err), expected='<= 1e-6', ranks=rk)
-    if I_vld is not None and not (0 <= info['e_vld'] <= 1e-6):
-        return fail('info[e_vld] not small although the target is reproduced', got=float(info['e_vld']))
+    fl = check(Y, info, '')
+    if fl:
+        return fl
+    # interrupted run: None at a call after the first left-to-right pass (its cores still stem from the pre-iteration).
+    # Only for the fixed-rank start at rho: under rank growth the ranks of an interrupted result say nothing about the
+    # size of the index sets its older cores were interpolated from, and with working ranks ABOVE rho an index set
+    # inherited from the pre-iteration can be degenerate for the target with positive probability (two of its rows
+    # differing only in an over-ranked bond give parallel columns) - observed: error ~0.1 after the first half sweep,
+    # gone one half sweep later; that regime is outside the statement of the property (and of C05_cross_exact).
+    if ncall > d and c['kind'] == 'fixed':
+        k = c.get('kNone')
+        if k is None:
+            k = d + (c['seed'] * 7919) % (ncall - d)
+        c['kNone'] = k
+        try:
+            Y, info, _ = run(k)
+        except Exception as e:  # noqa
+            return fail('interrupted cross raised ' + repr(e)[:300])
+        if info.get('stop') != 'func':
+            return fail('objective returned None but stop is not func', got=info.get('stop'))
+        fl = check(Y, info, 'interrupted run: ')
+        if fl:
+            return fl
     return None
 
 
